@@ -254,7 +254,15 @@ def run(tier, seed):
         done += len(outs)
         if p.returncode != 0:
             if done < len(scripts):
-                rep.violation(f'the in-process server died during a request sequence (exit {p.returncode})', {'script': scripts[done], 'stderr': p.stderr[-400:]})
+                # the listed third-party panic (pep508_rs on a malformed requirement) unwinds through the handler and ends the
+                # process: re-read the script's pyproject texts with the parse stream, whose PEP 508 tape names the panic
+                pys = [('pyproject_toml', st['text']) for st in scripts[done]['steps'] if st['op'] in ('open', 'change') and st['uri'].endswith('pyproject.toml')]
+                tapes, _ = P.run_docs(pys) if pys else ([], None)
+                bad_req = [x[0] for o in tapes or [] for x in o['out'].get('pep508', []) if x[1] == 'panic']
+                if bad_req:
+                    rep.known('C06-pep508-panic-on-malformed-requirement', {'requirement': bad_req[:3], 'script': scripts[done]})
+                else:
+                    rep.violation(f'the in-process server died during a request sequence (exit {p.returncode})', {'script': scripts[done], 'stderr': p.stderr[-400:]})
             done += 1
         else:
             break
